@@ -8,7 +8,9 @@
 
 mod galloc;
 mod arith;
+mod compile;
 mod dump;
+mod expr;
 mod gen;
 mod parse;
 mod rec;
@@ -85,6 +87,8 @@ fn worker() {
             "dumpir" => dump::op_dumpir(&req),
             "parse" => parse::op_parse(&req),
             "render" => dump::op_render(&req),
+            "compile" => compile::op_compile(&req),
+            "expr" => expr::op_expr(&req),
             "sv" => sv::op_sv(&req),
             "arith" => arith::op_arith(&req),
             "ping" => println!("{}", json!({"pong": 1, "debug": cfg!(debug_assertions)})),
